@@ -19,7 +19,9 @@ package main
 //   cp-restart  the initial store already reaches ABOVE the last (or an inner) checkpoint - the state after a restart; a peer then
 //            delivers a side branch that forks off below a checkpoint (light or heavy, as a reply or pushed), both engines
 //   takeover  past the last checkpoint / without checkpoints / checkpoints disabled: the sync peer sends a forbidden or a
-//            checkpoint-contradicting header and is dropped; an honest peer takes over and must be synced from (last clause of C07)
+//            checkpoint-contradicting header (last or inner checkpoint: the tip is left exactly on a checkpoint height) and is
+//            dropped; an honest peer takes over and must be synced from (last clause of C07); experimental engine: the honest
+//            peer's session starts after the drop
 //   forb-orphan  the forbidden header arrives while its parent is unknown: a batch with a gap in front of it, a batch that starts
 //            beyond the tip with it, a foreign-branch push; followed by its children; both engines
 //   random   seeded mixtures of the above ingredients
@@ -465,6 +467,10 @@ func runC07(c *Ctx) error {
 				{true, []cpSpec{{1, 999}}, []int{bad[0]}, "checkpoints disabled, forbidden"},
 				{false, []cpSpec{{1, pre[0]}}, []int{bad[k-1]}, "past the last checkpoint, forbidden"},
 				{false, []cpSpec{{a, pre[a-1]}, {a + 1, good[0]}}, nil, "contradicts the last checkpoint"},
+				// the contradicting header becomes the tip AT the height of a checkpoint that is not the last one: whoever is asked
+				// next starts with the tip exactly on a checkpoint height
+				{false, []cpSpec{{a + 1, good[0]}, {a + 3, good[2]}}, nil, "contradicts an inner checkpoint"},
+				{false, []cpSpec{{a + 1, good[0]}, {a + 2, good[1]}, {a + k + 3, good[k+2]}}, nil, "contradicts an inner checkpoint, the next one adjacent"},
 			}
 			for _, v := range variants {
 				uu := &History{Subs: u.Subs, Forbidden: v.forb}
@@ -479,6 +485,21 @@ func runC07(c *Ctx) error {
 					sc := &Scenario{Eng: "d", Dis: v.dis, Cps: v.cps, U: uu, Nodes: nodes, Cmds: cmds}
 					if err := g.do(sc, "takeover"); err != nil {
 						return err
+					}
+				}
+				// experimental engine: every connection is its own session; the honest peer's session starts after the drop
+				// (the tracker of the new session is created from the tip the contained header left behind)
+				if !v.dis {
+					n4 := &nodeSpec{P: 3, Cap: 2, Chain: catInts(pre, good)}
+					for _, cmds := range [][]string{{"C1", "R40", "C2", "R60"}, {"C1", "R40", "C3", "R90"}, {"C1", "D1", "C2", "R60"}} {
+						nodes := []*nodeSpec{n1, n2}
+						if cmds[2] == "C3" {
+							nodes = []*nodeSpec{n1, n4}
+						}
+						sc := &Scenario{Eng: "x", Cps: v.cps, U: uu, Nodes: nodes, Cmds: cmds}
+						if err := g.do(sc, "takeover-exp"); err != nil {
+							return err
+						}
 					}
 				}
 			}
